@@ -974,3 +974,62 @@ func isNumericBasic(t types.Type) bool {
 	b, ok := t.Underlying().(*types.Basic)
 	return ok && b.Info()&(types.IsInteger|types.IsFloat) != 0
 }
+
+// ---------------------------------------------------------------------------
+// R-COMPARE-WHOLE-TERM (C08; added after seed C08j): the order "does not depend on how a list or string was built".
+// The list representations order themselves by handing the WHOLE term to the generic comparison of compounds
+// (arity, name, arguments left to right): every return of their Compare methods is the result of CompareCompound
+// called with the receiver itself as its first operand. A shortcut that compares parts of the representation (the
+// prefixes of two partial lists that share a tail) answers differently from the same lists written out.
+func ruleCompareWholeTerm(c *Ctx, r *Report) {
+	const rule = "R-COMPARE-WHOLE-TERM"
+	desc := "a list representation is ordered as the compound it denotes, whole"
+	cc := c.fn("CompareCompound")
+	if cc == nil {
+		r.undecided(rule, "anchor:CompareCompound", "-", desc, "not found")
+		return
+	}
+	n := 0
+	for _, tn := range []string{"partial", "list", "charList", "codeList"} {
+		fn := c.method(tn, "Compare")
+		if fn == nil {
+			continue
+		}
+		recv := ssa.Value(fn.Params[0])
+		k := 0
+		eachInstr(fn, func(in ssa.Instruction) {
+			ret, ok := in.(*ssa.Return)
+			if !ok || len(ret.Results) != 1 {
+				return
+			}
+			n++
+			k++
+			key := fmt.Sprintf("%s/return#%d", fname(fn), k)
+			good := true
+			for _, l := range c.originSet(ret.Results[0]) {
+				call, ok := l.(*ssa.Call)
+				if !ok || call.Call.StaticCallee() != cc || len(call.Call.Args) == 0 {
+					good = false
+					continue
+				}
+				whole := false
+				for _, a := range c.originSet(call.Call.Args[0]) {
+					if a == recv {
+						whole = true
+					}
+				}
+				if !whole {
+					good = false
+				}
+			}
+			if good {
+				r.ok(rule, key, c.at(in), desc, "the result of CompareCompound(receiver, ...)", true)
+			} else {
+				r.bad(rule, key, c.at(in), desc, "this return is not the generic comparison of the whole receiver: two lists that are equal when written out can be ordered by how they were built (prefix [a,a,a] against [a,a] over one shared tail)")
+			}
+		})
+	}
+	if n == 0 {
+		r.undecided(rule, "scan/list-compare", "-", desc, "no Compare method of a list representation found")
+	}
+}
